@@ -48,6 +48,25 @@ CHECKS = [
      'technique': 'fault injection on generated handshake edits + '
                   'differential negotiation against a reference rule and an '
                   'independent peer'},
+    {'id': 'C04', 'memwire': True,
+     'text': 'Generated known_hosts texts (plain, comma lists, wildcards, '
+             'negation, hashed, address, [host]:port, @cert-authority, '
+             '@revoked, comments, damaged lines) x target (host, '
+             'HostKeyAlias, port) x server identity (listed / unlisted / '
+             'revoked key; host certificate with trusted / untrusted / '
+             'revoked CA, host / user type, valid / expired / future window, '
+             'matching / other / no principals, corrupted signature; an '
+             'independent server presenting a trusted key but signing with '
+             'another). An independent predicate decides accept/reject; on '
+             'reject connect() must raise HostKeyNotVerifiable or '
+             'KeyExchangeFailed and no authentication request may reach the '
+             'server.',
+     'note': 'Predicate written from sshd(8) plus the documented port '
+             'fallback; real clock with one-hour margins (boundaries in '
+             'C16); X.509 host certificates not runnable; corrupted and '
+             'independently-served certificates are presented by refpeer.',
+     'technique': 'PBT against a reference trust predicate, with an '
+                  'independent (possibly lying) server peer'},
     {'id': 'C05', 'memwire': True,
      'text': 'Generated authentication histories (every method, validity '
              'variant, user switch, pipelining, asynchronous validator gates '
@@ -114,6 +133,23 @@ CHECKS = [
              '(quiescence of a loop without real I/O).',
      'technique': 'PBT with an independent wire-level flow-control '
                   'accounting model (differential running sums)'},
+    {'id': 'C09', 'memwire': True, 'level': 'fault_enumeration',
+     'text': 'Generated client programs leave channel opens, requests, '
+             'reads, drains, waits, SFTP requests and remote-forward requests '
+             'pending behind server-side gates; then one terminal event '
+             '(close / abort / disconnect from either side, login timeout, or '
+             'loss of the transport after byte k of either direction) at a '
+             'generated point; plus an enumerated sweep cutting 8 scripted '
+             'sessions at every record boundary and at bytes 0..60 of the '
+             'next record. After quiescence: every awaited call is done, '
+             'every owner/session log is connection_made ... connection_lost '
+             'exactly once and last, no channel or listener registered, no '
+             'task alive, loop exception handler silent.',
+     'note': 'Quiescence of a loop without real I/O or timers decides '
+             'hangs; reads private _channels/_local_listeners and '
+             'loop._ready/_scheduled.',
+     'technique': 'fault enumeration over cut points + model-free PBT of '
+                  'histories with a termination/quiescence oracle'},
     {'id': 'C11', 'memwire': True,
      'text': 'Re-exchanges triggered by byte limits from one packet upward, a '
              'virtual-clock time limit, the peer, or both at once, repeated, '
